@@ -1,6 +1,9 @@
 (* Model of the goroutines between a bus listener channel and the consumer of a subscription:
 
      minibus.DropExcess                 (internal/minibus/util.go:9-35)       StDrop
+     resource.changesAfter              (pkg/resource/collection.go, since 9d7adf1) StAfter: unwraps the
+                                        published changes in front of mergeCollectionExcess; a plain
+                                        `for e := range in { out <- e }` without any ctx case
      resource.mergeCollectionExcess     (pkg/resource/backpressure.go:12-73)   StMerge
      the forwarder of Value.Pull        (pkg/resource/value.go:101-127)        StFwd (0 or 1 seed)
      the forwarder of Collection.Pull   (pkg/resource/collection.go:230-272)   StFwd (seeds)
@@ -28,6 +31,7 @@ From SC Require Import Base.Prelude Bus.Bus.
 Record msg := mkM { m_id : Z; m_kind : Z; m_val : Z }.
 
 Inductive stage :=
+| StAfter (cur : option msg)                   (* changesAfter: the change it is handing on *)
 | StDrop (has : option msg)
 | StMerge (q : list msg)                       (* one pending change per id, in queue order *)
 | StFwd (seeds : list msg) (cur : option msg)  (* seeds still to emit; the change being sent *)
@@ -46,6 +50,7 @@ Inductive plabel := PCancel | PSrcClose | PSrc (m : msg) | PXfer (i : nat) | PEx
 Definition accepting (st : stage) : bool :=
   match st with
   | StDrop _ | StMerge _ => true
+  | StAfter None => true
   | StFwd [] None => true
   | StPullID _ None => true
   | _ => false
@@ -54,6 +59,7 @@ Definition accepting (st : stage) : bool :=
 Definition offer (st : stage) : option msg :=
   match st with
   | StDrop h => h
+  | StAfter c => c
   | StMerge (m :: _) => Some m
   | StFwd (m :: _) _ => Some m
   | StFwd [] c => c
@@ -92,6 +98,7 @@ Definition merge_in (q : list msg) (m : msg) : list msg :=
 Definition recv (st : stage) (m : msg) : stage :=
   match st with
   | StDrop _ => StDrop (Some m)
+  | StAfter None => StAfter (Some m)
   | StMerge q => StMerge (merge_in q m)
   | StFwd [] None => StFwd [] (Some m)
   | StPullID id None =>
@@ -103,6 +110,7 @@ Definition recv (st : stage) (m : msg) : stage :=
 Definition sent (st : stage) : stage :=
   match st with
   | StDrop _ => StDrop None
+  | StAfter _ => StAfter None
   | StMerge q => StMerge (tl q)
   | StFwd (_ :: r) c => StFwd r c
   | StFwd [] _ => StFwd [] None
@@ -184,6 +192,7 @@ Definition prun_v0 := prun_gen false.
 Definition pend (st : stage) : nat :=
   match st with
   | StDrop (Some _) => 1
+  | StAfter (Some _) => 1
   | StMerge q => List.length q
   | StFwd s c => List.length s + match c with Some _ => 1 | None => 0 end
   | StPullID _ (Some _) => 1
@@ -207,6 +216,18 @@ Definition all_stages_done (p : pipe) : bool := forallb is_done (p_stages p).
 Definition init_pipe (stages : list stage) : pipe := mkP false false stages [].
 Definition fresh_stage (st : stage) : bool :=
   match st with
-  | StDrop None | StMerge [] | StFwd _ None | StPullID _ None => true
+  | StDrop None | StAfter None | StMerge [] | StFwd _ None | StPullID _ None => true
   | _ => false
+  end.
+
+(* changesAfter has neither a ctx case nor a select on its input while it hands a change on: it
+   relies on the stage after it (mergeCollectionExcess, which always receives and ends only
+   after its input is closed) to take the change.  [after_ok] states that shape. *)
+Definition always_accepting (st : stage) : bool :=
+  match st with StDrop _ | StMerge _ => true | _ => false end.
+Fixpoint after_ok (l : list stage) : bool :=
+  match l with
+  | [] => true
+  | StAfter _ :: r => match r with nx :: _ => always_accepting nx | [] => false end && after_ok r
+  | _ :: r => after_ok r
   end.
